@@ -7,6 +7,10 @@ BASELINE_OFF = ("cd /repo && cargo nextest run --workspace --no-fail-fast --test
 
 # id -> (level, technique, design_ref, text, note)
 CHECKS = {
+ "C17": ("exploration", "exhaustive enumeration of traversal-rich keys / copy sources / bucket names / upload ids x backend operations on the real s3s-fs backend, with whole-tree snapshot diff and marker search",
+         "DESIGN §4 C17",
+         "All sequences of 1..3 segments over a 12-symbol traversal alphabet (with/without leading slash, plus deep escapes) x 18 operations at the S3 trait and GET/PUT/DELETE/copy through S3Service::call in three spellings, against a store with two marked buckets, a foreign open upload and a marked sentinel tree beside and above the root; after every operation the complete directory tree is diffed and everything read back is searched for foreign markers.",
+         "symbolic links are not part of the space; segment alphabet and length <=3 bound the keys"),
  "C13": ("exploration", "bounded exhaustive enumeration of values per type (all single-member deviations) and of every instance of each document mutation operator, with differential oracles and an independent tokenizer, on the real public XML codec",
          "DESIGN §4 C13",
          "For each of the ~250 types with both directions: base value and every single-member deviation to depth 6 over the XML alphabets -> encode -> well-formed (xmlparser) and decode == value; on the encoded base and a populated value every instance of truncation, rename/duplicate/delete/swap of elements, unknown child, second root, text outside the root, CDATA / comment / PI / character-reference rewrites and scalar perturbation of each text node, judged differentially (accepted => well-formed; meaning-preserving rewrite => same value; structural change => never silently without effect).",
